@@ -302,12 +302,15 @@ func vf26SameErr(a, b error) bool {
 
 var vf26GoroutineHdr = regexp.MustCompile(`(?m)^goroutine (\d+) \[([^\],]+)(?:, [^\]]*)?\]:$`)
 
+// vf26ActorMarker identifies the goroutines running calls under test in a goroutine dump.
+var vf26ActorMarker = "vf26RunCase.func"
+
 // vf26Stuck returns, for a full goroutine dump, id -> state of the goroutines running harness actor code of C26.
 func vf26Stuck(dump string) map[string]string {
 	out := map[string]string{}
 	for _, g := range strings.Split(dump, "\n\n") {
 		// actor goroutines = goroutines started by vf26RunCase that are inside a call under test
-		if !strings.Contains(g, "vf26RunCase.func") || strings.Contains(g, "vf26Watch") {
+		if !strings.Contains(g, vf26ActorMarker) || strings.Contains(g, "vf26Watch") {
 			continue
 		}
 		if !strings.Contains(g, "tls.(*UConn).") && !strings.Contains(g, "tls.(*Conn).Close") &&
